@@ -166,46 +166,70 @@ theorem unset_enterState (mi : Nat) (m : Machine) (cur next : Nat) (s : Fw σ) :
         rw [this]; exact k1
   · rfl
 
-/-- The main counting lemma: a transition adds at most the weight of its own entry plus the weight
-    of one CounterZero entry per guard flag of that machine that is still unset. -/
+/-- `scheduleAction` leaves every runtime alone -/
+theorem scheduleAction_rt (mi next : Nat) (s : Fw σ) : (scheduleAction ρ mi next s).rt = s.rt := by
+  unfold scheduleAction
+  split
+  · simp
+  · split
+    · simp
+    · split
+      · simp
+      · split
+        · rfl
+        · rfl
+        · next b rp tmo lim _ => exact (sampleTimeout_spec ρ mi (.sendPadding b rp tmo lim) s).1.rt
+        · next b rp tmo du lim _ =>
+          exact ((sampleDuration_spec ρ mi (.blockOutgoing b rp tmo du lim)
+            (sampleTimeout ρ (.blockOutgoing b rp tmo du lim) s).2).1.rt).trans
+            (sampleTimeout_spec ρ mi (.blockOutgoing b rp tmo du lim) s).1.rt
+        · next rp du lim _ => exact (sampleDuration_spec ρ mi (.updateTimer rp du lim) s).1.rt
+
+/-- The main counting lemma, in potential form: log weight plus (unset guard flags of the machine)
+    x (weight of a CounterZero entry) grows by at most the weight of the transition's own entry. -/
 theorem count_main (hμ : TransOnly μ) (c : Nat) (fuel : Nat) :
     (∀ mi (ev : Event) (a : Nat) (s : Fw σ),
       (∀ st, μ (.trans mi ev.toNat st) ≤ a) → (∀ st, μ (.trans mi Event.counterZero.toNat st) ≤ c) →
-      wsum μ (transition ρ fuel mi ev s).1.log ≤ wsum μ s.log + a + unset s mi * c) ∧
+      wsum μ (transition ρ fuel mi ev s).1.log + unset (transition ρ fuel mi ev s).1 mi * c
+        ≤ wsum μ s.log + a + unset s mi * c) ∧
     (∀ mi (s : Fw σ), (∀ st, μ (.trans mi Event.counterZero.toNat st) ≤ c) →
-      wsum μ (updateCounter ρ fuel mi s).1.log ≤ wsum μ s.log + unset s mi * c) := by
+      wsum μ (updateCounter ρ fuel mi s).1.log + unset (updateCounter ρ fuel mi s).1 mi * c
+        ≤ wsum μ s.log + unset s mi * c) := by
   induction fuel with
   | zero =>
     refine ⟨fun mi ev a s _ _ => ?_, fun mi s _ => ?_⟩
-    · simp only [transition]; rw [(quiet_withFault (μ := μ) s _).w]; omega
-    · simp only [updateCounter]; rw [(quiet_withFault (μ := μ) s _).w]; omega
+    · simp only [transition]; rw [(quiet_withFault (μ := μ) s _).w, unset_withFault]; omega
+    · simp only [updateCounter]; rw [(quiet_withFault (μ := μ) s _).w, unset_withFault]
   | succ n ih =>
     obtain ⟨ihT, ihU⟩ := ih
     refine ⟨fun mi ev a s ha hc => ?_, fun mi s hc => ?_⟩
     · rw [transition]
       cases hr : s.rt[mi]? with
-      | none => simp only []; rw [(quiet_withFault (μ := μ) s _).w]; omega
+      | none => simp only []; rw [(quiet_withFault (μ := μ) s _).w, unset_withFault]; omega
       | some r =>
       cases hm : s.machines[mi]? with
-      | none => simp only []; rw [(quiet_withFault (μ := μ) s _).w]; omega
+      | none => simp only []; rw [(quiet_withFault (μ := μ) s _).w, unset_withFault]; omega
       | some m =>
       simp only []
       have h0 : wsum μ (s.push (.trans mi ev.toNat r.currentState)).log ≤ wsum μ s.log + a := by
         simp only [Fw.push, wsum_cons]; have := ha r.currentState; omega
-      have hq : ∀ t, QuietLog μ (s.push (.trans mi ev.toNat r.currentState)) t →
-          wsum μ t.log ≤ wsum μ s.log + a + unset s mi * c := by
-        intro t ht; rw [ht.w]; omega
+      have hq : ∀ t, QuietLog μ (s.push (.trans mi ev.toNat r.currentState)) t → unset t mi ≤ unset s mi →
+          wsum μ t.log + unset t mi * c ≤ wsum μ s.log + a + unset s mi * c := by
+        intro t ht hu
+        rw [ht.w]
+        have := Nat.mul_le_mul_right c hu
+        omega
       split
-      · exact hq _ (QuietLog.refl μ _)
+      · exact hq _ (QuietLog.refl μ _) (Nat.le_refl _)
       · cases hst : m.states[r.currentState]? with
-        | none => simp only []; exact hq _ (quiet_withFault _ _)
+        | none => simp only []; exact hq _ (quiet_withFault _ _) (by rw [unset_withFault]; exact Nat.le_refl _)
         | some st =>
         simp only []
         cases hvec : st.transitions[ev.toNat]? with
-        | none => simp only []; exact hq _ (quiet_withFault _ _)
+        | none => simp only []; exact hq _ (quiet_withFault _ _) (by rw [unset_withFault]; exact Nat.le_refl _)
         | some ov =>
         cases ov with
-        | none => simp only []; exact hq _ (QuietLog.refl μ _)
+        | none => simp only []; exact hq _ (QuietLog.refl μ _) (Nat.le_refl _)
         | some vec =>
         simp only []
         generalize hs1 : (({ (s.push (.trans mi ev.toNat r.currentState)) with
@@ -216,55 +240,64 @@ theorem count_main (hμ : TransOnly μ) (c : Nat) (fuel : Nat) :
           exact ⟨by simp [Fw.push, wsum_cons, hμ (.draw _) (fun _ _ _ h => by cases h)]⟩
         have e1 : s1.rt = s.rt := by subst hs1; rfl
         cases hss : sampleState vec (ρ.u (s.push (.trans mi ev.toNat r.currentState)).rng).1 with
-        | none => simp only []; exact hq _ q1
+        | none => simp only []; exact hq _ q1 (Nat.le_of_eq (unset_congr (by rw [e1])))
         | some next =>
         simp only []
         have q2 : QuietLog μ (s.push (.trans mi ev.toNat r.currentState)) (s1.push (.sampled mi ev.toNat next)) :=
           q1.trans (quiet_push hμ _ _ (fun _ _ _ h => by cases h))
         generalize hs2 : s1.push (.sampled mi ev.toNat next) = s2 at q2 ⊢
         have e2 : s2.rt = s.rt := by subst hs2; exact e1
+        have hu2 : unset s2 mi = unset s mi := unset_congr (by rw [e2])
         split
-        · exact hq _ (q2.trans (quiet_modRt _ _ _))
+        · refine hq _ (q2.trans (quiet_modRt _ _ _)) ?_
+          have hk : unset (s2.modRt mi (fun r => { r with currentState := STATE_END })) mi = unset s2 mi :=
+            unset_modRt_keep s2 mi _ (fun _ => rfl) (fun _ => rfl)
+          exact Nat.le_of_eq (hk.trans hu2)
         · split
-          · exact hq _ (q2.trans ⟨rfl⟩)
+          · exact hq _ (q2.trans ⟨rfl⟩) (Nat.le_of_eq hu2)
           · have q3 := q2.trans (quiet_enterState ρ hμ mi m r.currentState next s2)
             have hre3 : unset (enterState ρ mi m r.currentState next s2) mi ≤ unset s mi := by
-              rw [unset_enterState]; exact Nat.le_of_eq (unset_congr (by rw [e2]))
+              rw [unset_enterState]; exact Nat.le_of_eq hu2
             generalize enterState ρ mi m r.currentState next s2 = s3 at q3 hre3 ⊢
             cases hr3 : s3.rt[mi]? with
-            | none => simp only []; exact hq _ (q3.trans (quiet_withFault _ _))
+            | none => simp only []; exact hq _ (q3.trans (quiet_withFault _ _)) (by rw [unset_withFault]; exact hre3)
             | some r1 =>
             simp only []
             cases hb : belowActionLimits s3.g r1 m with
-            | none => simp only []; exact hq _ (q3.trans (quiet_withFault _ _))
+            | none => simp only []; exact hq _ (q3.trans (quiet_withFault _ _)) (by rw [unset_withFault]; exact hre3)
             | some below =>
             simp only []
             have hU := ihU mi s3 hc
-            have hlog4 : wsum μ (updateCounter ρ n mi s3).1.log ≤ wsum μ s.log + a + unset s mi * c := by
+            have hlog4 : wsum μ (updateCounter ρ n mi s3).1.log + unset (updateCounter ρ n mi s3).1 mi * c
+                ≤ wsum μ s.log + a + unset s mi * c := by
               rw [q3.w] at hU
               have : unset s3 mi * c ≤ unset s mi * c := Nat.mul_le_mul_right c hre3
               omega
             have hlog5 : wsum μ (if ((updateCounter ρ n mi s3).2.1 && below) = true
                 then scheduleAction ρ mi next (updateCounter ρ n mi s3).1 else (updateCounter ρ n mi s3).1).log
+                + unset (if ((updateCounter ρ n mi s3).2.1 && below) = true
+                then scheduleAction ρ mi next (updateCounter ρ n mi s3).1 else (updateCounter ρ n mi s3).1) mi * c
                 ≤ wsum μ s.log + a + unset s mi * c := by
               split
-              · rw [(quiet_scheduleAction ρ hμ mi next _).w]; exact hlog4
+              · rw [(quiet_scheduleAction ρ hμ mi next _).w,
+                  unset_congr (s := (updateCounter ρ n mi s3).1) (by rw [scheduleAction_rt])]
+                exact hlog4
               · exact hlog4
             generalize (if ((updateCounter ρ n mi s3).2.1 && below) = true
                 then scheduleAction ρ mi next (updateCounter ρ n mi s3).1 else (updateCounter ρ n mi s3).1) = s5 at hlog5 ⊢
             cases hr5 : s5.rt[mi]? with
-            | none => simp only []; rw [(quiet_withFault (μ := μ) s5 _).w]; exact hlog5
+            | none => simp only []; rw [(quiet_withFault (μ := μ) s5 _).w, unset_withFault]; exact hlog5
             | some r2 => simp only []; exact hlog5
     · rw [updateCounter]
       cases hr : s.rt[mi]? with
-      | none => simp only []; rw [(quiet_withFault (μ := μ) s _).w]; omega
+      | none => simp only []; rw [(quiet_withFault (μ := μ) s _).w, unset_withFault]
       | some r =>
       cases hm : s.machines[mi]? with
-      | none => simp only []; rw [(quiet_withFault (μ := μ) s _).w]; omega
+      | none => simp only []; rw [(quiet_withFault (μ := μ) s _).w, unset_withFault]
       | some m =>
       simp only []
       cases hst : m.states[r.currentState]? with
-      | none => simp only []; rw [(quiet_withFault (μ := μ) s _).w]; omega
+      | none => simp only []; rw [(quiet_withFault (μ := μ) s _).w, unset_withFault]
       | some st =>
       simp only []
       have hmi : mi < s.rt.length := by
@@ -292,11 +325,14 @@ theorem count_main (hμ : TransOnly μ) (c : Nat) (fuel : Nat) :
         have hT := ihT mi .counterZero c s2 hc hc
         rw [q2.w] at hT
         have hmul : (unset s2 mi + 1) * c ≤ unset s mi * c := Nat.mul_le_mul_right c hflag
-        have hfin : wsum μ (transition ρ n mi .counterZero s2).1.log ≤ wsum μ s.log + unset s mi * c := by
+        have hfin : wsum μ (transition ρ n mi .counterZero s2).1.log + unset (transition ρ n mi .counterZero s2).1 mi * c
+            ≤ wsum μ s.log + unset s mi * c := by
           rw [Nat.add_mul] at hmul; omega
         split
-        · rw [(quiet_withFault (μ := μ) _ _).w]; exact hfin
+        · rw [(quiet_withFault (μ := μ) _ _).w, unset_withFault]; exact hfin
         · exact hfin
-      · rw [q2.w]; omega
+      · rw [q2.w]
+        have h1 : unset s2 mi ≤ unset s mi := by omega
+        exact Nat.add_le_add_left (Nat.mul_le_mul_right c h1) _
 
 end Mb
